@@ -214,3 +214,65 @@ func linDepends(v ssa.Value, pred func(ssa.Value) bool, depth int) bool {
 	}
 	return walk(v, depth)
 }
+
+// c11LastLine: a line ending with a forced break is a last line for alignment.
+func c11LastLine(c *core.Check) {
+	p := c.Prog
+	r := c.Rule("R11", "text-align-last and justification apply to the line before a forced break as to the last line of the block (CSS Text 3 §6.3): the `last line` flag getNextLinebox hands to textAlign depends both on the absence of a resume point and on the preserved line break reported by splitInlineBox", 1)
+	fn := p.Fn("html/layout", "getNextLinebox")
+	if fn == nil {
+		r.Anchor("html/layout.getNextLinebox")
+		return
+	}
+	n := 0
+	core.Instrs(fn, func(in ssa.Instruction) {
+		call, ok := in.(*ssa.Call)
+		if !ok || call.Call.StaticCallee() == nil || call.Call.StaticCallee().Name() != "textAlign" {
+			return
+		}
+		n++
+		arg := call.Call.Args[len(call.Call.Args)-1]
+		dependsOnBreak := false
+		dependsOnResume := false
+		seen := map[ssa.Value]bool{}
+		var walk func(v ssa.Value, d int)
+		walk = func(v ssa.Value, d int) {
+			if seen[v] || d > 8 {
+				return
+			}
+			seen[v] = true
+			if core.IsFieldNamed(v, "preservedLineBreak") {
+				dependsOnBreak = true
+			}
+			switch x := v.(type) {
+			case *ssa.Phi:
+				for _, e := range x.Edges {
+					walk(e, d+1)
+				}
+				// the branch deciding the phi
+				for _, pred := range x.Block().Preds {
+					if ifi, ok := pred.Instrs[len(pred.Instrs)-1].(*ssa.If); ok {
+						walk(ifi.Cond, d+1)
+					}
+				}
+			case *ssa.BinOp:
+				if x.Op == token.EQL || x.Op == token.NEQ {
+					if k, isK := x.Y.(*ssa.Const); isK && k.Value == nil {
+						if core.DerivesFrom(x.X, func(w ssa.Value) bool { return core.IsFieldNamed(w, "resumeAt") }) {
+							dependsOnResume = true
+						}
+					}
+				}
+				walk(x.X, d+1)
+				walk(x.Y, d+1)
+			case *ssa.UnOp:
+				walk(x.X, d+1)
+			}
+		}
+		walk(arg, 0)
+		r.Cond(dependsOnBreak && dependsOnResume, "html/layout.getNextLinebox | textAlign(…, last line)", p.Pos(call.Pos()), "resumeAt == nil || preservedLineBreak", fmt.Sprintf("the flag depends on the resume point: %v, on the preserved line break: %v — the line before a <br> is justified like a full line", dependsOnResume, dependsOnBreak))
+	})
+	if n == 0 {
+		r.Anchor("getNextLinebox: call of textAlign")
+	}
+}
